@@ -433,3 +433,6 @@ def replay(ctx, path):
                 rc = 1
     print("replay:", "still failing" if rc else "implementation and model agree; no panic, hang or leaked handle")
     return rc
+
+
+META["level_claimed"]["text"] += (' Added (Model/EncHandles.lean, histories with several open handles): reader_holds_content_at_open, open_reader_untouched (any history of any length that does not address the handle, any cipher), reader_delivers_content_at_open; correspondence family `hist` and oracle class `handles`.')
